@@ -398,10 +398,21 @@ func bScenario(p *bProc, drop map[int32]bool) (a, b []int32, err error) {
 	// force; where that broadcast is disabled it polls the state instead. A missing broadcast
 	// therefore shows in the final comparison, a slow machine does not.
 	const patience = 20 * time.Second
+	slow := false
 	awaitA := func(class int32) {
 		if !drop[class] {
-			rx, _ := wsUntil(wa, class, patience)
+			rx, ok := wsUntil(wa, class, patience)
 			note(&a, rx)
+			if !ok {
+				// missing, or is the machine too busy to tell? A's own ping must come back promptly
+				t0 := time.Now()
+				wsSend(wa, &hagallpb.Request{Type: TPingReq, Timestamp: ts(), RequestId: 2000})
+				rx, ok := wsUntil(wa, TPingResp, patience)
+				note(&a, rx)
+				if !ok || time.Since(t0) > 2*time.Second {
+					slow = true
+				}
+			}
 		}
 	}
 	wsSend(wa, &hagallpb.ParticipantJoinRequest{Type: TJoinReq, Timestamp: ts(), RequestId: 1})
@@ -502,6 +513,9 @@ func bScenario(p *bProc, drop map[int32]bool) (a, b []int32, err error) {
 	wsSend(wa, &hagallpb.Request{Type: TPingReq, Timestamp: ts(), RequestId: 4})
 	rx, _ = wsUntil(wa, TPingResp, patience)
 	note(&a, rx)
+	if slow {
+		return nil, nil, fmt.Errorf("a message did not arrive within %v and the server answered a ping slowly: inconclusive", patience)
+	}
 	return a, b, nil
 }
 
